@@ -87,6 +87,18 @@ struct Doer : dv11::Typed<TE, Doer> {
 		else if(what == "assign_elems_named") { auto&& e = d.elements(); e = std::as_const(sh->v).elements(); }
 		else if(what == "swap") { swap(std::move(d), std::move(s)); }
 		else if(what == "move") { d = s.element_moved(); }
+		else if(what.rfind("marr_", 0) == 0) {  // moved sub-views of an rvalue OWNING array (array.hpp:210-216)
+			multi::array<TE, D, typename P::template alloc<TE>> S(s);  // an owning copy of the source view (copy construction sets no moved-from flag)
+			if(what == "marr_call") { d = std::move(S)(); }
+			else if(what == "marr_taked") { d = std::move(S).taked(args[0]); }
+			else if(what == "marr_dropped") { d = std::move(S).dropped(args[0]); }
+			else { throw dv11::unsupported("unknown do " + what); }
+			// make S's state (value, moved-from flag per element) visible in the source region of the dumped buffer
+			auto&& se = s.elements();
+			auto&& Se = S.elements();
+			auto it = Se.begin();
+			for(auto&& x : se) { x.v = (*it).v; x.moved = (*it).moved; ++it; }
+		}
 		else if(what == "assign_from_rv") { d = std::move(s); }             // lvalue view = rvalue view of the same type: a copy
 		else if(what == "assign_rv_rv") { std::move(d) = std::move(s); }
 		else if(what.rfind("aref_", 0) == 0) {  // the array_ref overloads (contiguous references over whole roots)
